@@ -7,7 +7,7 @@ A document is a list of fragments.  A fragment is a dict
      'g': [generated / macro-body words: position not judged],
      'lang': LT language code in force for the literal words, or None (main)}
 Every word is unique in its document and no word is a substring of another
-(shape: 'q' + syllables without q/z + 'z'), so the position of a word in the
+(shape: start marker + syllables + end marker, markers occur nowhere else), so the position of a word in the
 LaTeX source is source.find(word) - an oracle independent of YaLafi's map.
 
 Only this module (and the scenario generators calling it) draws random
@@ -16,7 +16,13 @@ numbers; fragments are plain data afterwards.
 
 CONS = 'bdfgklmnprstv'
 VOWS_ASCII = 'aeiou'
-VOWS_ALL = 'aeiouäéжø'
+VOWS_ALL = 'aeiouäжøï'
+# start / end markers: they occur nowhere else in a word, hence no word is a
+# substring of another; non-ASCII ones put multi-byte characters at the very
+# first / last position of a flagged word
+STARTS = 'qþ'
+ENDS = 'zßé'
+WORD_RE = r'[qþ][^\Wqþzßé\d_]+[zßé]'
 
 
 class Words:
@@ -42,7 +48,11 @@ class Words:
             n //= len(CONS)
             if n == 0:
                 break
-        return 'q' + body + 'z'
+        a, b = 'q', 'z'
+        if not ascii_only and self.rng.random() < self.nonascii:
+            a = self.rng.choice(STARTS)
+            b = self.rng.choice(ENDS)
+        return a + body + b
 
     def words(self, k, **kw):
         return [self.word(**kw) for _ in range(k)]
@@ -347,6 +357,18 @@ def f_otherlanguage(rng, W, ctx):
                 needs=['babel'])
 
 
+def f_foreign_repeat(rng, W, ctx):
+    """The same foreign phrase twice: two byte-identical parts of one
+    language.  Its words occur twice in the source ('rep': 2); the k-th
+    submission containing such a word belongs to its k-th occurrence."""
+    a, b, c = W.words(2), W.words(rng.randrange(1, 6)), W.words(3)
+    name = rng.choice([n for n in LANGS if LANGS[n] != ctx['lang']])
+    ph = '\\foreignlanguage{%s}{%s.}' % (name, ' '.join(b))
+    s = '%s %s %s %s %s %s.\n' % (a[0], ph, a[1], c[0], ph, ' '.join(c[1:]))
+    return frag('foreign_repeat', s, a + c, ml=True, foreign=[[LANGS[name], b]],
+                needs=['babel'], rep=2)
+
+
 def f_selectlanguage(rng, W, ctx):
     a, b = W.words(2), W.words(rng.randrange(3, 7))
     name = rng.choice([n for n in LANGS if LANGS[n] != ctx['lang']])
@@ -374,9 +396,11 @@ GENERATORS = {
     'hyperref': f_hyperref, 'xcolor': f_xcolor,
     'foreign_short': f_foreign_short, 'foreign_long': f_foreign_long,
     'otherlanguage': f_otherlanguage, 'selectlanguage': f_selectlanguage,
+    'foreign_repeat': f_foreign_repeat,
 }
 
-ML_KINDS = ['foreign_short', 'foreign_long', 'otherlanguage', 'selectlanguage']
+ML_KINDS = ['foreign_short', 'foreign_long', 'otherlanguage', 'selectlanguage',
+            'foreign_repeat']
 BASIC_KINDS = [k for k in GENERATORS if k not in ML_KINDS]
 
 
